@@ -18,6 +18,8 @@ def nontrivial(engine, opline):
     if engine == 'block':
         # non-trivial: a transaction line that was admitted (not a begin/end line, not refused at admission)
         return bool(t) and t[0] in ('eth', 'cos')
+    if engine == 'calltree':
+        return bool(t) and t[0] == 'tree'
     if engine == 'erc20':
         return bool(t) and t[0] in ('erc', 'esend')
     if engine == 'vauth':
@@ -80,11 +82,12 @@ PROPS = {
         rule=BLOCK_RULE, assumptions=BLOCK_ASSUME + ['bloom filters are not modelled: receipt bloom = bloom(own logs) and block bloom = union are checked by the engine on the real receipts (tested, not proved)'],
     ),
     'C03': dict(
-        lean_modules=['Model.CDbGeneric', 'Model.World', 'Model.StateDB', 'Proofs.CDb', 'Properties.C03'],
+        lean_modules=['Model.CDbGeneric', 'Model.World', 'Model.StateDB', 'Model.CallTree', 'Proofs.CDb', 'Properties.C03', 'Properties.C12'],
         facts=['*'],
-        theorems=['C03_revert_exact', 'C03_no_trace', 'C03_ids_stable', 'C03_calltree', 'C03_vmerr_residue',
+        theorems=['C03_revert_exact', 'C03_no_trace', 'C03_ids_stable', 'C03_calltree', 'C03_vmerr_residue', 'C03_reverted_frame_no_trace',
                   'execNode_spec', 'execList_spec', 'framed_run', 'revertGo_frame', 'revert_ok', 'snapshot_ok', 'upd_ok'],
-        engines=[dict(name='statedb', test='TestEngineStatedb', quick=6000, thorough=120000, thorough_seeds=3)],
+        engines=[dict(name='statedb', test='TestEngineStatedb', quick=6000, thorough=120000, thorough_seeds=3),
+                 dict(name='calltree', test='TestEngineCalltree', quick=300, thorough=6000, thorough_seeds=2)],
         rule='random cStateDb API sequences (19 op kinds incl. precompile-style bank/allowance writes through GetCurrentContext, nested snapshot/revert incl. invalid ids, commit) on a real chain context with base/contract/module/vesting fixtures; full getter dump after every op; non-trivial = a real op line (not world set-up); distinct by (op line) hash',
         assumptions=['cachekv CacheContext is a value copy of its parent for reads and isolates writes until write() (SDK contract; exercised by every revert in E-statedb)',
                      'the interpreter uses the StateDB only as snapshot; body; revert-on-failure (evm.Call/Create) — call-tree theorem; arbitrary API sequences are covered by C03_revert_exact'],
@@ -140,10 +143,25 @@ PROPS['C10'] = dict(
               'C10_approve_exact', 'C10_full_fails', 'C10_allowance_safety_partial', 'xfer_spec', 'spendAllowance_spec', 'spendIfOther_spec',
               'ghostAgree_step', 'ghostAgree_run', 'spend_needs_allowance',
               'fact_allowance_key', 'fact_erc20_method_table', 'fact_erc20_selectors', 'fact_erc20_views_write_nothing', 'fact_erc20_writes_no_mint'],
-    engines=[dict(name='erc20', test='TestEngineErc20', quick=1500, thorough=40000, thorough_seeds=3)],
+    engines=[dict(name='erc20', test='TestEngineErc20', quick=1500, thorough=40000, thorough_seeds=3),
+             dict(name='calltree', test='TestEngineCalltree', quick=300, thorough=6000, thorough_seeds=2)],
     rule='random ERC-20 precompile call sequences over two tokens / two bank denominations (8 methods, callers: EOAs, two forwarder contracts, zero address, module accounts, an address without account; amounts 0, 1, balance, balance+1, 2^256-1, half, small random), interleaved with native MsgSend, through EvmKeeper.ApplyMessage(commit); after every op all balances, supplies and the whole allowance table are compared; non-trivial = every call/send line; distinct by op-line hash',
     assumptions=['atomicity of a failing call is the frame revert of C03', 'amounts are ABI-decoded uint256 (< 2^256)',
                  'vesting-locked balances are outside E-erc20 (C15)', 'calls run through ApplyMessage (no ante handler): fee handling is C04/C05'],
+)
+
+CALLTREE_RULE = 'generated call trees (depth <= 4, 1-3 actions per frame, CALL/STATICCALL/DELEGATECALL/CALLCODE edges between two scripted runner contracts, returning and reverting frames, ERC-20 precompile calls of 6 methods over two tokens at every depth; a quarter of the trees entirely under one STATICCALL frame) through EvmKeeper.ApplyMessage and the real interpreter; all balances, supplies, allowances and the log list compared after each tree; non-trivial = every tree line; distinct by op-line hash'
+PROPS['C12'] = dict(
+    lean_modules=['Model.Erc20', 'Model.CallTree', 'Properties.C10', 'Properties.C12', 'Facts.Cpc'],
+    facts=['*'],
+    theorems=['C12_direct_static_refused', 'C12_views_never_write', 'C12_full_fails', 'C12_static_partial', 'execAct_guarded', 'execList_guarded',
+              'C03_reverted_frame_no_trace', 'C12_ro_no_write', 'C12_rw_gas', 'C12_writers_declared', 'fact_fork_readonly_literals',
+              'fact_fork_runcustom_guard', 'fact_selectors_match_abi', 'fact_erc20_iswrite'],
+    engines=[dict(name='calltree', test='TestEngineCalltree', quick=400, thorough=8000, thorough_seeds=3)],
+    rule=CALLTREE_RULE,
+    assumptions=['the interpreter (opcode semantics, 63/64 gas rule, read-only flag for LOG/SSTORE/value transfers) is the shared fork code, not modelled; the runner gives every call half of the remaining gas so that gas never decides an outcome',
+                 'staking / bech32 methods enter through the regenerated method table (read-only => no write API reachable; writers => gas > 0; selector = ABI id), not through the call-tree model',
+                 'the write census is syntactic (callee names over the package-local call graph)'],
 )
 
 NOT_APPLICABLE = {}
